@@ -10,4 +10,4 @@ CONSTANTS
 VIEW View
 INVARIANTS TypeOK WithinLimit UsedCovers
 PROPERTIES DeadAuthorizesNothing RejectIsFree StepWithinBudget Independent
-
+ACTION_CONSTRAINT EmitEdge
